@@ -58,9 +58,13 @@ func ethHeaderJSON(v int, extra []byte) ([]byte, error) {
 }
 
 func ethHeaderJSONAt(v int, extra []byte, number int64) ([]byte, error) {
+	return ethHeaderJSONRoot(v, extra, number, ecommon.Hash(h32("root", v)))
+}
+
+func ethHeaderJSONRoot(v int, extra []byte, number int64, root ecommon.Hash) ([]byte, error) {
 	h := eth.Header{
 		ParentHash: ecommon.Hash(h32("parent", v)), UncleHash: etypes.EmptyUncleHash, Coinbase: ecommon.Address{1, byte(v)},
-		Root: ecommon.Hash(h32("root", v)), TxHash: etypes.EmptyRootHash, ReceiptHash: etypes.EmptyRootHash,
+		Root: root, TxHash: etypes.EmptyRootHash, ReceiptHash: etypes.EmptyRootHash,
 		Difficulty: big.NewInt(int64(2 + v)), Number: big.NewInt(number), GasLimit: 8000000, GasUsed: 21000,
 		Time: uint64(1600000000 + v), Extra: extra, MixDigest: ecommon.Hash{}, Nonce: etypes.BlockNonce{},
 	}
@@ -69,6 +73,12 @@ func ethHeaderJSONAt(v int, extra []byte, number int64) ([]byte, error) {
 
 // parlia/congress style genesis of the bsc, heco, msc, hsc, pixiechain and bytom routers
 func posaGenesis(v int) ([]byte, error) {
+	return posaGenesisRoot(v, heightFor(v, 1000, 1200, 1<<62), ecommon.Hash(h32("root", v)))
+}
+
+// posaGenesisRoot: the same genesis record with a chosen height and state root (used to drive the PoSA routers'
+// cross-chain handlers to acceptance with real storage proofs).
+func posaGenesisRoot(v int, number int64, root ecommon.Hash) ([]byte, error) {
 	extra := make([]byte, 32)
 	nSigners := 3 + v
 	if unusual(v) {
@@ -79,7 +89,7 @@ func posaGenesis(v int) ([]byte, error) {
 		extra = append(extra, a[:20]...)
 	}
 	extra = append(extra, make([]byte, 65)...)
-	hdr, err := ethHeaderJSON(v, extra)
+	hdr, err := ethHeaderJSONRoot(v, extra, number, root)
 	if err != nil {
 		return nil, err
 	}
@@ -87,7 +97,7 @@ func posaGenesis(v int) ([]byte, error) {
 	g := map[string]interface{}{
 		"Header": json.RawMessage(hdr),
 		"PrevValidators": []map[string]interface{}{{
-			"Height":     big.NewInt(heightFor(v, 1000, 1200, 1<<62) - 200),
+			"Height":     big.NewInt(number - 200),
 			"Validators": []ecommon.Address{ecommon.BytesToAddress(prev[:20])},
 			"Hash":       nil,
 		}},
